@@ -32,9 +32,14 @@ def _fmt_parts(t):
                     v = a[2][0] if a[0] == "app" else a
                     k = 0
                     while v[0] == "ref" and k < 4:
-                        v = v[3] if len(v) > 3 else (v[1][1] if not v[1][2] else v)
-                        if v[0] == "ref" and len(v) <= 3 and v[1][2]:
-                            break
+                        if len(v) > 3:
+                            v = v[3]
+                        elif v[1][1][0] == "local":
+                            break           # a reference to a local without a snapshot: resolved against the path by fmt_parts
+                        else:
+                            v = v[1][1] if not v[1][2] else v
+                            if v[0] == "ref" and len(v) <= 3 and v[1][2]:
+                                break
                         k += 1
                     vals.append(v)
             return tpl, vals
@@ -109,7 +114,8 @@ def analyze(ctx, want):
                     same = cid == do.group(1) + ".0" and (do.group(1) + ".0") in ccs and "get_character_class" in ccs and "character_class_registry" in ccs
                     if not same and cid == do.group(1) + ".0":
                         # the class is not registered (lookup answered None on this path): the placeholder text
-                        nolook = [c_ for c_, o_ in p.conds if c_[0] == "isvar" and "get_character_class" in S.fstr(c_[1]) and (do.group(1) + ".0") in S.fstr(c_[1]) and ((c_[2] == "None" and o_ is True) or (c_[2] == "Some" and o_ is False))]
+                        from .common import cond_variant
+                        nolook = [c_ for c_, o_ in p.conds if cond_variant(c_, o_) is not None and cond_variant(c_, o_)[1] == "None" and "get_character_class" in S.fstr(cond_variant(c_, o_)[0]) and (do.group(1) + ".0") in S.fstr(cond_variant(c_, o_)[0])]
                         same = bool(nolook) and lab[1][0][0] in ("const", "app", "ref", "local", "deref") and not S.mentions(lab[1][0], lambda x: x[0] == "sym" and x[1].startswith("item@"))
                     ob("C18.b", "edge-label-is-the-class-of-the-same-transition", same and "C#" in lab[0], "label args %s" % [S.fstr(v)[:70] for v in lab[1]], rd.loc())
                 else:
@@ -120,13 +126,13 @@ def analyze(ctx, want):
     its = [M.call_name(t) for bb, t in rd.calls(ADAPTERS)]
     ob("C18.a", "no-filter-on-states-or-transitions", not its, "iterator adapters: %s" % its, rd.loc())
     # loop sources: 0..states.len(), states.iter().enumerate(), state.transitions.iter()
-    srcs = []
-    for p in paths:
-        for e in p.events:
-            if e[0] == "call" and re.search(r"Iterator>::next$", e[2]):
-                srcs.append(S.fstr(argval(e, 0))[:120])
-    srcs = sorted(set(srcs))
-    ok = any("Range(0, Vec::len(&compiled_dfa.states))" in s for s in srcs) and any("enumerate" in s and "compiled_dfa.states" in s for s in srcs) and any("transitions" in s for s in srcs)
+    from .common import loop_sources
+    ls = loop_sources(ex, paths)
+    srcs = sorted(set(s_ for _, s_ in ls))
+    # one walk over all states for the nodes, one for the edges (by index range or by enumerate), and one over the transitions
+    # of the state at hand
+    over_states = {bb_ for bb_, s_ in ls if "compiled_dfa.states" in s_ and "transitions" not in s_}
+    ok = len(over_states) >= 2 and any("transitions" in s_ for s_ in srcs)
     ob("C18.a", "loops-range-over-all-states-and-transitions", ok, "loop sources: %s" % srcs, rd.loc())
     # an edge is drawn on every iteration of the transition loop: no conditional before it
     inner = [h for h, b in rd.natural_loops().items() if not any(h2 != h and h2 in b for h2 in rd.natural_loops())]
@@ -164,7 +170,7 @@ def analyze(ctx, want):
     ob("C18.a", "mode-automaton-drawn", main_ok, "render_compiled_dfa(compiled_dfa, \"\", registry, digraph)", cr.loc())
     ob("C18.a", "every-lookahead-drawn-in-a-cluster", la_ok, "lookahead loop draws lookahead.nfa into a fresh cluster", cr.loc())
     its = [M.call_name(t) for bb, t in cr.calls(ADAPTERS)]
-    srcs = [S.fstr(argval(e, 0))[:100] for p in paths for e in p.events if e[0] == "call" and re.search(r"Iterator>::next$", e[2])]
+    srcs = [s_ for _, s_ in loop_sources(ex, paths)]
     ob("C18.a", "all-lookaheads-visited", not its and any("compiled_dfa.lookaheads" in s for s in srcs), "adapters %s; loop sources %s" % (its, sorted(set(srcs))[:2]), cr.loc())
 
     gd = F.fn(r"ScannerImpl::generate_compiled_automata_as_dot$")
@@ -219,7 +225,7 @@ def analyze(ctx, want):
             ob("C18.a", "each-mode-rendered-into-its-own-file", bool(ok), "compiled_dfa_render(%s, .., %s, ..)" % (S.fstr(argval(rc[0], 0))[:40] if rc else None, S.fstr(argval(rc[0], 2))[:40] if rc else None), gd.loc())
     ob("C18.d", "all-outcomes", {"io-err", "io-ok", "done"} <= seen, "outcomes %s" % sorted(seen), gd.loc())
     its = [M.call_name(t) for bb, t in gd.calls(ADAPTERS)]
-    srcs = [S.fstr(argval(e, 0))[:100] for p in paths for e in p.events if e[0] == "call" and re.search(r"Iterator>::next$", e[2])]
+    srcs = [s_ for _, s_ in loop_sources(ex, paths)]
     ob("C18.a", "one-file-per-mode", not its and any("self.scanner_modes" in s for s in srcs), "adapters %s; loop sources %s" % (its, sorted(set(srcs))[:2]), gd.loc())
     unw = [M.call_name(t) for bb, t in gd.calls(r"Result::<.*>::(unwrap|expect)$")]
     ob("C18.d", "no-unwrap-of-io-results", not unw, "Result unwraps: %s" % unw, gd.loc())
